@@ -6,7 +6,8 @@
      h_i = h0*rho**-i exact rationals / Gaussian rationals for complex rho) with SYMBOLIC
      L, a_j in [-1,1]: every output slot equals L within the backward-error bound of the
      pinv-produced weights; number of outputs = len - terms used; short sequences work  (z3, LRA)
-  S  for fresh symbolic sequences: error estimates >= 0 on all three branches of
+  I  instance reuse: a Richardson object first used on a short sequence behaves like a fresh one afterwards
+ S  for fresh symbolic sequences: error estimates >= 0 on all three branches of
      _estimate_error, column c of the output only contains symbols of column c
 """
 from __future__ import annotations
@@ -87,6 +88,9 @@ def jobs(tier, seed):
                 for nt in range(0, 6):
                     out.append(('exact-r%d-s%d-o%d-t%d' % (ri, step, order, nt),
                                 dict(kind='exact', step=step, order=order, ratio=rr, nt=nt, tier=tier)))
+    for nt in range(1, 6):
+        out.append(('reuse-t%d' % nt, dict(kind='reuse', step=1, order=1, ratio=[2.0, 0.0], nt=nt)))
+        out.append(('reuse-t%d-s2' % nt, dict(kind='reuse', step=2, order=2, ratio=[1.6, 0.0], nt=nt)))
     for nt in (0, 1, 2, 3):
         for cplx_data in (False, True):
             out.append(('struct-t%d-%s' % (nt, 'c' if cplx_data else 'r'),
@@ -118,6 +122,8 @@ def run_job(job, kind, step, order, ratio, nt, tier='quick'):
         return matrix(job, ex, step, order)
     if kind == 'exact':
         return exact(job, ex, step, order, _ratio(ratio), nt)
+    if kind == 'reuse':
+        return reuse(job, ex, step, order, _ratio(ratio), nt)
     return struct(job, ex, nt, ratio[1] != 0)
 
 
@@ -266,6 +272,46 @@ def _validate_exact(job, ex, step, order, ratio, nt):
     return new
 
 
+def reuse(job, ex, step, order, ratio, nt):
+    """one Richardson instance used for a short sequence first: the next (long) call must behave like a fresh instance"""
+    L = sn.real_var('L')
+    a = [sn.real_var('a%d' % j) for j in range(nt)]
+    names = ['L'] + ['a%d' % j for j in range(nt)]
+    box = [z3.And(z3.Real(nm) >= -1, z3.Real(nm) <= 1) for nm in names]
+    long_len = nt + 3
+
+    def seq_of(length, used):
+        rows, hs = build_sequence(step, order, ratio, used, length, L, a)
+        arr = np.empty((length, 1), dtype=object)
+        for i in range(length):
+            arr[i, 0] = rows[i][0]
+        return arr.view(sn.SymArr), np.array([[float(h[0])] for h in hs])
+    for short_len in range(1, nt + 1):
+        s_short, h_short = seq_of(short_len, min(nt, short_len - 1))
+        s_long, h_long = seq_of(long_len, nt)
+
+        def harness():
+            with tr.traced(), cm.quiet():
+                r = ex.Richardson(step_ratio=ratio, step=step, order=order, num_terms=nt)
+                r(s_short, h_short)
+                r.rule(short_len)
+                again = r(s_long, h_long)
+                fresh = ex.Richardson(step_ratio=ratio, step=step, order=order, num_terms=nt)(s_long, h_long)
+                return again, fresh, r.num_terms
+        p = sn.run_single(harness, assumptions=box)
+        job.paths += 1
+        if p.exc is not None:
+            job.violation('raises', dict(key='C07:reuse:raises', kind='reuse', exc=repr(p.exc)[:200], short=short_len, nt=nt))
+            continue
+        (n1, e1, s1), (n2, e2, s2), nt_after = p.result
+        info = dict(key='C07:reuse:instance-state-leaks', kind='reuse', short=short_len, nt=nt)
+        if not job.confirm('same output count after reuse', np.shape(n1) == np.shape(n2) and nt_after == nt):
+            job.violation('count', dict(info, got=list(np.shape(n1)), want=list(np.shape(n2)), num_terms_after=int(nt_after)))
+            continue
+        for u, v in zip(cm.flat_list(n1), cm.flat_list(n2)):
+            job.prove('reused instance == fresh instance', sn.lift(u) == sn.lift(v), box, info)
+
+
 def struct(job, ex, nt, cplx):
     """fresh symbolic sequences: non-negative errors, column independence, all three branches"""
     for length in range(1, 7):
@@ -351,6 +397,20 @@ def replay(cex):
             return True, ('Richardson(step_ratio=%r, step=%d, order=%d, num_terms=%d) on L+sum a_j h^k_j (L=%r, a=%r, len %d): slot %d '
                           '= %r' % (ratio, step, order, nt, Lv, av, length, i, new[i, 0]))
         return False, 'slot %d = %r, L = %r' % (i, new[i, 0], Lv)
+    if kind == 'reuse':
+        short = cex.get('short', 1)
+        rng = np.random.default_rng(4)
+        h = 0.5 * (1.0 / ratio) ** np.arange(nt + 3)
+        seq = (1.0 + sum(rng.normal() * h ** (order + step * j) for j in range(nt)))[:, None]
+        r = ex.Richardson(step_ratio=ratio, step=step, order=order, num_terms=nt)
+        with cm.quiet():
+            r(seq[:short], h[:short, None])
+            a1 = r(seq, h[:, None])
+            a2 = ex.Richardson(step_ratio=ratio, step=step, order=order, num_terms=nt)(seq, h[:, None])
+        if a1[0].shape != a2[0].shape or not np.array_equal(a1[0], a2[0]):
+            return True, ('Richardson(num_terms=%d) instance first called with a sequence of length %d returns %r for a length-%d sequence; '
+                          'a fresh instance returns %r' % (nt, short, a1[0].ravel(), nt + 3, a2[0].ravel()))
+        return False, 'reused instance equals fresh instance'
     if kind in ('struct', 'columns'):
         length = cex['length']
         rng = np.random.default_rng(1)
